@@ -942,9 +942,15 @@ def isclassvartype(obj: type) -> bool:
     return getattr(obj, "__origin__", obj) is tp.ClassVar
 
 
+def _isannotated(obj: tp.Any) -> bool:
+    return tp.get_origin(obj) is tp.Annotated
+
+
 _UNWRAPPABLE = (
     isclassvartype,
     isfinal,
+    # `Annotated[X, ...]` is `X` with metadata attached.
+    _isannotated,
 )
 
 
